@@ -116,6 +116,19 @@ type hist struct {
 
 	servedSeen map[string]bool // "step/nonce/bytes" already given to the model as EServed
 	queryErr   map[string]bool
+
+	// chain restarts from an exported genesis: issued is what the RUNNING instance published (reset
+	// at a restart to what it shows), ever is everything any instance published
+	ever         map[string]bool
+	afterGenesis bool
+}
+
+// vid: oracle ids of histories with a genesis restart are kept apart (the defect there is another one).
+func (h *hist) vid(id string) string {
+	if h.afterGenesis {
+		return id + "-after-genesis-import"
+	}
+	return id
 }
 
 func effEst(e uint64) uint64 {
@@ -259,7 +272,14 @@ func (h *hist) oracle(after string) {
 		now := h.jailed(cctx)
 		for _, v := range now {
 			if !has(before, v) {
-				h.run.Violate("C13:honest-signer-jailed",
+				if h.afterGenesis && !h.issued[g.Cp] {
+					// published by the instance before the restart for a batch retired before the export
+					h.run.Violate("C13:retired-checkpoint-unprotected-after-genesis",
+						fmt.Sprintf("after a restart from an exported genesis validator %d is jailed by its own confirmation of a checkpoint the previous chain instance published (%s); the batch was retired before the export", v, g.Cp),
+						map[string]any{"kind": "evidence-history", "history": h.replay, "after": after, "evidence": g, "class": class})
+					continue
+				}
+				h.run.Violate(h.vid("C13:honest-signer-jailed"),
 					fmt.Sprintf("validator %d jailed by bad-signature evidence made of its own confirmation of a checkpoint the chain published (%s)", v, g.Cp),
 					map[string]any{"kind": "evidence-history", "history": h.replay, "after": after, "evidence": g, "class": class})
 			}
@@ -268,7 +288,7 @@ func (h *hist) oracle(after string) {
 	for cp := range h.issued {
 		b, _ := hex.DecodeString(cp)
 		if !h.in.SkywayKeeper.GetPastEthSignatureCheckpoint(h.ctx, b) {
-			h.run.Violate("C13:issued-checkpoint-not-archived", "a checkpoint published for signing (stored BytesToSign or served by a batch query) is not in the archive ("+cp+")",
+			h.run.Violate(h.vid("C13:issued-checkpoint-not-archived"), "a checkpoint published for signing (stored BytesToSign or served by a batch query) is not in the archive ("+cp+")",
 				map[string]any{"kind": "evidence-history", "history": h.replay, "after": after, "checkpoint": cp})
 		}
 	}
@@ -436,7 +456,7 @@ func newHist(t *testing.T, run *emit.Run) *hist {
 	h := &hist{t: t, run: run, r: run.Rng, in: in, ctx: ctx, ms: keeper.NewMsgServerImpl(in.SkywayKeeper),
 		keyAddr: map[string]int{}, tids: map[string]int{}, bodies: map[string]int{}, cpTriple: map[string]triple{},
 		tripleCp: map[triple]string{}, issued: map[string]bool{}, known: map[uint64]types.InternalOutgoingTxBatch{},
-		servedSeen: map[string]bool{}, queryErr: map[string]bool{}}
+		servedSeen: map[string]bool{}, queryErr: map[string]bool{}, ever: map[string]bool{}}
 	tok, err := types.NewEthAddress(erc20)
 	if err != nil {
 		t.Fatal(err)
@@ -766,6 +786,40 @@ func (h *hist) opEndBlock() {
 	}
 }
 
+// opGenesis: the chain is restarted from an exported genesis, as far as the skyway module is
+// concerned: ExportGenesis, every key of the module's store deleted, InitGenesis.  (The other
+// modules' state -- chain infos, registrations, staking -- is carried by their own genesis.)
+func (h *hist) opGenesis() {
+	k := h.in.SkywayKeeper
+	gs := keeper.ExportGenesis(h.ctx, k)
+	st := k.VerifC11RawStore(h.ctx)
+	var keys [][]byte
+	it := st.Iterator(nil, nil)
+	for ; it.Valid(); it.Next() {
+		keys = append(keys, append([]byte{}, it.Key()...))
+	}
+	it.Close()
+	for _, key := range keys {
+		st.Delete(key)
+	}
+	func() {
+		defer func() {
+			if rec := recover(); rec != nil {
+				h.t.Fatalf("InitGenesis of the exported state panicked: %v", rec)
+			}
+		}()
+		keeper.InitGenesis(h.ctx, k, gs)
+	}()
+	for cp := range h.issued {
+		h.ever[cp] = true
+	}
+	h.issued = map[string]bool{}
+	h.afterGenesis = true
+	h.republish()
+	h.run.Count("op", "genesis export+import")
+	h.step("OGenesis", rOk, map[string]any{"op": "genesis export + import (skyway store rebuilt from ExportGenesis)", "batches": len(gs.Batches)})
+}
+
 func (h *hist) opSetTid() {
 	h.scid++
 	id := fmt.Sprintf("compass-%d", h.scid)
@@ -974,7 +1028,7 @@ func (h *hist) opEvidence() {
 		if !has(before, v) {
 			h.sawJail = true
 			if h.issued[hex.EncodeToString(scp)] {
-				h.run.Violate("C13:jailed-for-issued-checkpoint",
+				h.run.Violate(h.vid("C13:jailed-for-issued-checkpoint"),
 					fmt.Sprintf("validator %d jailed by evidence whose checkpoint the chain had published", v),
 					map[string]any{"kind": "evidence-history", "history": h.replay, "subject": subj, "signature": sig})
 			}
@@ -1079,6 +1133,8 @@ func runEvidence(t *testing.T, run *emit.Run, n int) {
 				h.opSetReg()
 			case p < 72:
 				h.opUnjail()
+			case p < 75:
+				h.opGenesis()
 			default:
 				h.opEvidence()
 			}
@@ -1126,6 +1182,17 @@ func replayCorpus(t *testing.T, run *emit.Run) {
 				h.step(fmt.Sprintf("OEstimate %d %s", n, emit.ZU(s.Estimate)), class, map[string]any{"op": "estimate", "nonce": n, "estimate": s.Estimate})
 			case "redeploy":
 				h.opSetTid()
+			case "genesis":
+				h.opGenesis()
+			case "executed":
+				n := h.nonces[len(h.nonces)-1]
+				err := h.in.SkywayKeeper.OutgoingTxBatchExecuted(h.ctx, *h.token, types.MsgBatchSendToRemoteClaim{
+					BatchNonce: n, EthBlockHeight: 1, TokenContract: h.token.GetAddress().Hex(), ChainReferenceId: chainName,
+				})
+				if err != nil {
+					t.Fatalf("corpus: executed: %v", err)
+				}
+				h.step(fmt.Sprintf("ORemove %d", n), rOk, map[string]any{"op": "executed", "nonce": n})
 			case "confirm-and-replay":
 				n := h.nonces[len(h.nonces)-1]
 				b := h.stored(n)
